@@ -106,11 +106,12 @@ def gen_grammars(prop, tier, n, profile):
             add(g)
     elif profile == 'recovery':     # C08
         for g in gg.err_core(): add(g)
+        for g in gg.err_core(): add(gg.decorate(g, rnd, strings=0, typed=0.7, dflt=0.1))
         st = gg.grammar_stream(rnd, want_lr1=0.9)
         while len(out) < n:
             g, tb = next(st)
             g = gg.add_error_rules(g, rnd)
-            if rnd.random() < 0.3: g = gg.decorate(g, rnd, strings=0.1)
+            if rnd.random() < 0.5: g = gg.decorate(g, rnd, strings=0.1, typed=0.5)
             if gg.classify(ref_lr1.build(g)) in ('rr', 'acc'): continue
             add(g)
     elif profile == 'context':      # C13
@@ -555,8 +556,7 @@ def c06(tier):
     merge(ck, common.pmap(sfc.regex_worker, [(common.seed() * 17 + i, 400 if q else 4000, 'asan') for i in range(8 if q else 32)]))
     ctp = rxc.gen_patterns(rnd, 48 if q else 600, max_positions=20) + rxc.rr.hand_corpus()[:24]
     merge(ck, common.pmap(rxc.judge_ct, [('C06', c, 'asan0', common.seed() + i) for i, c in enumerate(chunks(ctp, 12))]))
-    if not q:
-        merge(ck, [fuzz_targets(tier)])
+    merge(ck, [fuzz_targets(tier)])
     ck.cov['rule'] = ('conflict-free grammars (core corpus, string/regex/typed terms, fixed lexer term sets, error rules, scripted custom lexers) built with clang ASan+UBSan (-fno-sanitize-recover, '
                       '_GLIBCXX_ASSERTIONS; thorough adds g++ ASan+bounds, libFuzzer targets) and run on hostile inputs: every single byte value, whitespace-only, empty, every prefix of valid sentences, '
                       'byte flips to NUL/0x80/0xff, trailing/leading whitespace, random bytes, inputs of 10^5..10^6 tokens and nesting depth 10^5, through string_buffer, an exact-size heap '
@@ -565,8 +565,51 @@ def c06(tier):
     ck.assumptions += ['termination is decided as bounded progress under a generous watchdog on the executions produced', 'ASan red zones cannot see intra-object overflow; the cvector hook and the bounds-monitoring buffer cover the library stacks and the caller buffer']
     return ck.finish(floor_events=1000)
 
+FUZZ = [('fuzz_json', [b'{"a":[1,2.5e+3,true,null],"b":{}}', b'[]', b'"x\\n"', b'[1,', b'{"k" 1}'], 200),
+        ('fuzz_regex', [b'a(b|c)*d\xffabcd', b'[a-z]+\xffhello!', b'(ab){3}\xffababab', b'[^x\xff', b'a{2\xffaa', b'\\x4\xff\x04'], 64),
+        ('fuzz_custom', [b'1+2;(3);', b'1 + ;2;', b'((1)', b';;;', b'12(\x80)'], 128)]
+
+def fuzz_one(args):
+    import tempfile, shutil, glob, re as _re
+    name, seeds, maxlen, runs, seed = args
+    out = {'counts': collections.Counter(), 'viol': [], 'samples': [], 'distinct': [], 'incon': []}
+    try:
+        exe = common.build(open(os.path.join(common.HARNESS, name + '.cpp')).read(), 'fuzz', name=name)
+    except common.BuildError as e:
+        out['viol'].append((['site:%s@compile' % name], 'fuzz target %s (documented API) does not compile: %s' % (name, e.diag[:500]), {})); return out
+    d = tempfile.mkdtemp(prefix='fz', dir=os.path.join(common.WORK, 'jobs') if os.path.isdir(os.path.join(common.WORK, 'jobs')) else common.WORK)
+    try:
+        os.makedirs(d + '/corpus'); os.makedirs(d + '/art')
+        for i, sd in enumerate(seeds): open('%s/corpus/s%d' % (d, i), 'wb').write(sd)
+        rc, so, se, to = common.run(exe, ['-runs=%d' % runs, '-seed=%d' % seed, '-max_len=%d' % maxlen, '-artifact_prefix=%s/art/' % d, '-print_final_stats=1', '-timeout=20', d + '/corpus'],
+                                    timeout=3600, env={'ASAN_OPTIONS': 'abort_on_error=0:detect_leaks=0:allocator_may_return_null=1', 'UBSAN_OPTIONS': 'print_stacktrace=1:halt_on_error=1'})
+        err = se.decode('latin-1', 'replace')
+        m = _re.search(r'stat::number_of_executed_units:\s*(\d+)', err)
+        n = int(m.group(1)) if m else 0
+        out['counts']['evaluations'] += n; out['counts']['fuzz_executions_' + name] += n
+        cov = _re.findall(r'cov: (\d+)', err)
+        if cov: out['counts']['fuzz_edges_covered_' + name] = int(cov[-1])
+        out['distinct'] += ['%s-%d' % (name, i) for i in range(min(n, 2))]
+        arts = glob.glob(d + '/art/*')
+        if rc != 0 or arts:
+            data = open(arts[0], 'rb').read() if arts else b''
+            sig = _re.findall(r'(MONITOR[^\n]*|ERROR: AddressSanitizer[^\n]*|runtime error:[^\n]*|SUMMARY: [A-Za-z]*Sanitizer[^\n]*|ERROR: libFuzzer[^\n]*)', err)
+            out['viol'].append((['input:' + common.sha(name, data)[:16]], 'fuzz target %s: input %r: %s' % (name, data[:120], ' | '.join(sig[:3]) or err[-300:]), {'target': name, 'input': data.hex(), 'stderr': err[-2500:]}))
+        if n == 0 and rc == 0: out['incon'].append('fuzzer %s reported no executions' % name)
+        out['samples'].append({'fuzz_target': name, 'executions': n, 'seed_inputs': [x.decode('latin-1') for x in seeds[:2]]})
+    finally:
+        shutil.rmtree(d, ignore_errors=True)
+    return out
+
 def fuzz_targets(tier):
-    return {'counts': {}, 'viol': [], 'samples': [], 'distinct': [], 'incon': []}
+    runs = 60000 if tier == 'quick' else 2000000
+    os.makedirs(os.path.join(common.WORK, 'jobs'), exist_ok=True)
+    outs = common.pmap(fuzz_one, [(n, s, ml, runs, common.seed()) for n, s, ml in FUZZ])
+    m = {'counts': collections.Counter(), 'viol': [], 'samples': [], 'distinct': [], 'incon': []}
+    for o in outs:
+        for k, v in o['counts'].items(): m['counts'][k] += v
+        for k in ('viol', 'samples', 'distinct', 'incon'): m[k] += o[k]
+    return m
 
 from . import consteval_check as cec
 
